@@ -172,6 +172,16 @@ def generate(seed, tier, index):
                 k = ["kinetics", "all", True, gen_us(rf)]      # the whole-state function on a multi-cell system
             i_drive = [i for i, o in enumerate(obs) if o[0] == "drive"][0]
             obs.insert(i_drive + 1, k)
+            if rf.chance(0.5):
+                # the map of the caller's live system changes through RDSystem's own methods after the kinetics functions
+                # were used on it; they follow the new map (and a copy's map is the copy's business)
+                act = rf.choice(["reset", "default", "set", "set", "copy_set"])
+                cs, ci = rf.randint(0, m.ns - 1), rf.randint(0, m.nc - 1)
+                val = rf.choice([True, 1, 0, False, 3]) if act != "copy_set" else int(not m.chem[cs, ci])
+                k2 = ["kinetics", "all" if m.ns * m.nc <= 9 else entries + [[cs, ci]], True, gen_us(rf)]
+                if m.nc == 1:
+                    k2 = ["kinetics", "all", True, gen_us(rf), "dxdtf"]
+                obs += [["chem_api", act, cs, ci, val], k2, ["drop_system"]]
         ops += obs
         if rep == nrep - 1 or rf.chance(0.5):
             ops.append(["finalize"])
@@ -298,9 +308,27 @@ def check(case, results):
                                                 "event possible in the state before it" % (ai, sorted(eff))})
                             break
                     prev = o
-            for ev in res.events:
-                if ev["e"] == ei and ev["op"] == "kinetics" and "exc" not in ev and not ev.get("skipped"):
-                    check_kinetics(ev, ep["ops"][ev["i"]], m, phys, v, stats, "C03", masked=True)
+            mk = m
+            for ev in sorted((e_ for e_ in res.events if e_["e"] == ei), key=lambda e_: e_["i"]):
+                if ev["op"] == "chem_api" and "exc" not in ev and not ev.get("skipped"):
+                    o_ = ep["ops"][ev["i"]]
+                    spec2 = copy.deepcopy(mk.spec)
+                    flat = [int(c) for c in mk.chem.ravel()]
+                    if o_[1] == "reset":
+                        flat = [0] * len(flat)
+                    elif o_[1] == "default":
+                        spec2["chem"] = None
+                        flat = [int(c) for c in Model(spec2).chem.ravel()]
+                    elif o_[1] == "set":
+                        flat[o_[2] * mk.nc + o_[3]] = int(bool(o_[4]))
+                    spec2["chem"] = flat
+                    mk = Model(spec2)
+                    stats["chemostat_map_changed_on_live_system"] = 1
+                    if [int(bool(c)) for c in ev["chem"]] != flat:
+                        v.append({"oracle": "C03.chemostat-api", "detail": "after %s the map is %s, expected %s" % (
+                            o_[1:], ev["chem"], flat)})
+                if ev["op"] == "kinetics" and "exc" not in ev and not ev.get("skipped"):
+                    check_kinetics(ev, ep["ops"][ev["i"]], mk, phys, v, stats, "C03", masked=True)
             nst = sum(1 for a in h.actions if a[0] == "iterate")
             stats["engine_steps"] = stats.get("engine_steps", 0) + nst
             if nst >= 2 and m.chem.any():
